@@ -457,7 +457,7 @@ class Plane:
                 # amp and opd arrays.
                 mask = self.mask if self.mask.ndim < 3 else self.mask[n]
                 if self.amplitude.size == 1:
-                    amp = self.amplitude if mask.size == 1 else self.amplitude * mask[s]
+                    amp = self.amplitude * mask if mask.size == 1 else self.amplitude * mask[s]
                 else:
                     amp = self.amplitude[s] * mask[s]
                 opd = self.opd if self.opd.size == 1 else self.opd[s]
